@@ -510,6 +510,25 @@ def grid_histories(tier):
         for v in ((1, 0), (1, 4), (2, 0)):
             for k in range(N_SETUP):
                 out += chunked("obj-%s-%d.%d" % (TARGETS[k], v[0], v[1]), object_probes(k), v, size)
+    # every creating operation x attribute lists that are accepted or refused at different points
+    # (while parsing, when applied to the new object, at commit), under the versions that know the
+    # 1.4 / 2.0 attributes: the key has been generated (or received) by then
+    from vlib import hist as _hist
+    for v in ((1, 4), (2, 0)) if quick else ((1, 2), (1, 4), (2, 0)):
+        creators = [(l, it) for l, it in _hist.pool_items(idx, v)
+                    if it["op"] in ("Create", "CreateKeyPair", "Register", "DeriveKey")]
+        for pos in ("common", "public", "private"):
+            for val in (True, False):
+                it = F.keypair_item()
+                it[pos] = it[pos] + [["Sensitive", val]]
+                creators.append(("CreateKeyPair-sensitive-%s-%s" % (pos, val), it))
+        for val in (True, False):
+            creators.append(("Create-sensitive-%s" % val, F.create_item(extra_attrs=[["Sensitive", val]])))
+            creators.append(("Register-canary-sensitive-%s" % val, {
+                "op": "Register", "attrs": [["Cryptographic Usage Mask", F.ALL_MASK], ["Sensitive", val]],
+                "obj": {"type": "SymmetricKey", "value": "$c:key-symmetric:cs%s:32" % val, "alg": "AES",
+                        "len": 256, "fmt": "RAW"}}))
+        out += chunked("creators-%d.%d" % v, creators, v, 30)
     out += internal_error_histories()
     # control: with DEBUG switched on the session logs every frame in hex - records below INFO
     # must be seen by the handler and left out of the verdict
